@@ -127,7 +127,14 @@ def mon_delivery(tr, pid='C01', require_complete=True, skip_uids=()):
                 interrupted = any(e['ev'] in ('sub_cancel', 'on_error') and e['dir'] == dirn for e in evs) or \
                     any(e['ev'] == 'hand_end' and e.get('how') == 'error' for e in evs) or \
                     any(e['ev'] in ('pub_cancel', 'src_on_cancel') and e['dir'] == dirn for e in evs)
-                if complete and not interrupted:
+                # a producer that fails after handing k elements: those k elements were handed before the error, so (with
+                # nothing else disturbing the stream) all of them are owed to the consumer before its on_error
+                own_error = any(e['ev'] == 'hand_end' and e.get('how') == 'error' and e.get('dir') == dirn for e in evs)
+                other = any(e['ev'] == 'sub_cancel' for e in evs) or \
+                    any(e['ev'] == 'hand_end' and e.get('how') == 'error' and e.get('dir') != dirn for e in evs) or \
+                    any(e['ev'] in ('pub_cancel', 'src_on_cancel') and e['dir'] == dirn for e in evs) or \
+                    any(e['ev'] == 'on_error' and e['dir'] != dirn for e in evs)
+                if complete and (not interrupted or (own_error and not other and has_sub)):
                     diff = _cmp_seq(hs, os_)
                 else:
                     diff = None if hs[:len(os_)] == os_ else (_cmp_seq(hs[:len(os_)], os_) or 'corrupted')
@@ -557,7 +564,7 @@ def mon_protocol(tr, pid='C08', decision=None):
             bad('payload_after_own_complete', 'payload_after_own_complete:%s:%s' % (s.kind, s.role))
         elif s.kind == 'ch' and s.own_complete and s.peer_complete and t in ('PAYLOAD', 'ERROR'):
             bad('frame_after_both_directions_completed', 'after_both_complete:%s:%s' % (s.kind, t))
-        elif s.kind == 'rr' and s.role == 'requester' and t == 'CANCEL' and s.peer_complete:
+        elif s.kind == 'rr' and s.role == 'requester' and t == 'CANCEL' and (s.peer_complete or s.peer_error):
             # decided after the response was yielded? (the done callback of the cancelled future is that moment)
             uid = tr.world.sid_map.get((side, sid))
             decided = last_rr_cancelled.get((side, uid))
@@ -1057,6 +1064,20 @@ def mon_connection_loss(tr, pid='C11', affected=('c', 's'), settled_mark='settle
                     if not any(e['ev'] == 'src_on_cancel' and e['seq'] > fseq for e in pe) and \
                             not any(e['ev'] in ('src_on_complete',) and e['seq'] > fseq for e in pe):
                         out.append(viol('publisher_not_cancelled', '%s:not_cancelled:%s' % (pid, kind), **facts))
+    # whatever the responder started (also for a request that arrived in the same read as the end of the connection):
+    # once the endpoint has reported the close, the library's own producers must have stopped pulling the application
+    for side in affected:
+        closed = next((e for e in log if e['ev'] == 'on_close' and e['side'] == side), None)
+        if closed is None:
+            continue
+        late = [e for e in log if e['ev'] == 'hand' and e['side'] == side and e['seq'] > closed['seq'] and
+                e.get('run', 1) == 1 and not e.get('raw') and e.get('uid') in scn.st and
+                ((scn.st[e['uid']]['spec'].get('src' if e.get('dir') == 'resp' else 'rsrc') or {}).get('kind') in ('gen', 'agen'))]
+        if late:
+            e = late[0]
+            kind = (scn.st[e['uid']]['spec'].get('src' if e.get('dir') == 'resp' else 'rsrc') or {}).get('kind')
+            out.append(viol('producer_pulled_after_close', '%s:produced_after_close:%s' % (pid, kind), side=side,
+                            uid=e['uid'], dir=e.get('dir'), n=len(late), fault=fkind))
     # requests issued after the loss (for example a retry from inside on_error) and before a later explicit close() of
     # that endpoint are pending at that close: it must fail them too
     for uid in scn.started:
